@@ -406,6 +406,22 @@ private: ///////////////////////////////////////////////////////////////////////
     }
 
     /**
+     * Erase the (in- or out-) entry for N that shares the edge data cell.
+     * With parallel edges the first entry for N need not be the reverse entry
+     * of the edge being removed.
+     */
+    template <typename CellTy>
+    void erase(gNode* N, bool inEdge, CellTy cell) {
+      first_eq_and_valid<gNode*> checker(N);
+      for (iterator ii = find(N, inEdge), ei = end(); ii != ei; ++ii) {
+        if (checker(*ii) && ii->isInEdge() == inEdge && ii->second() == cell) {
+          edges.erase(ii);
+          return;
+        }
+      }
+    }
+
+    /**
      * Find an edge with a particular destination node.
      */
     iterator find(gNode* N, bool inEdge = false) {
@@ -816,9 +832,8 @@ public
       src->erase(dst.base());
     } else {
       dst->first()->acquire(mflag);
-      // EdgeTy* e = dst->second();
-      dst->first()->erase(
-          src, Directional ? true : false); // erase incoming/symmetric edge
+      // erase the incoming/symmetric entry that shares this edge's data
+      dst->first()->erase(src, Directional ? true : false, dst->second());
       src->erase(dst.base());
     }
   }
